@@ -81,8 +81,8 @@ func ruleC28(c *Ctx) {
 		norm := func(s []string) string {
 			j := strings.Join(s, " ")
 			j = strings.ReplaceAll(j, "param:XPub", "xpub")
-			j = strings.ReplaceAll(j, "local:recv", "xpub")       // public side: the receiver is the xpub
-			j = strings.ReplaceAll(j, "local:XPub()", "xpub")     // private side: xpub := xprv.XPub()
+			j = strings.ReplaceAll(j, "local:recv", "xpub")   // public side: the receiver is the xpub
+			j = strings.ReplaceAll(j, "local:XPub()", "xpub") // private side: xpub := xprv.XPub()
 			return j
 		}
 		okSib := norm(a) == norm(b) && len(a) >= 6
